@@ -139,18 +139,32 @@ func aggregateResultsIntoSet(paths []regoPathResultInternal) RegoPathResult {
 func aggregateResultsIntoArray(paths []regoPathResultInternal) RegoPathResult {
 	rego := make([]string, 0)
 	ruleName := profile.Genvar("path_array_rule")
-	for i, p := range paths {
-		if i == 0 {
-			rego = append(rego, fmt.Sprintf("%s = [ nodes | ", ruleName)) // header of the rule
-		} else {
-			rego = append(rego, "} {") // add another clause to the rule // TODO ?
-		}
-		for _, r := range p.rego {
+	if len(paths) == 1 {
+		rego = append(rego, fmt.Sprintf("%s = [ nodes | ", ruleName)) // header of the rule
+		for _, r := range paths[0].rego {
 			rego = append(rego, "  "+r) // add the rego code to the final rule
 		}
-	}
-	if len(rego) > 0 {
 		rego = append(rego, "]")
+	} else if len(paths) > 1 {
+		// An array comprehension has a single body: if there are more than one path (because of ORs) one
+		// comprehension is generated per path and the final array is their concatenation (duplicates are kept)
+		concat := ""
+		for i := len(paths) - 1; i >= 0; i-- {
+			partName := fmt.Sprintf("%s_%d", ruleName, i)
+			if concat == "" {
+				concat = partName
+			} else {
+				concat = fmt.Sprintf("array.concat(%s, %s)", partName, concat)
+			}
+		}
+		for i, p := range paths {
+			rego = append(rego, fmt.Sprintf("%s_%d = [ nodes | ", ruleName, i))
+			for _, r := range p.rego {
+				rego = append(rego, "  "+r)
+			}
+			rego = append(rego, "]")
+		}
+		rego = append(rego, fmt.Sprintf("%s = %s", ruleName, concat))
 	}
 
 	return RegoPathResult{
